@@ -239,10 +239,9 @@ func process(e *entry, st *stats) string {
 	}
 	sb.WriteString(" (orig " + dumped + " " + optS(e.Op) + " " + jsonSexpOf(varsBytes(e.Vars)) + ")")
 
-	rv, rmsg := rawValid(schema, e.Query)
 	o := engineSequence(schema, e.Query, e.Op, varsBytes(e.Vars))
 	st.stages[o.stage]++
-	sb.WriteString(" (go (stage " + common.QS(o.stage) + " " + common.QS(o.msg) + ") (rawvalid " + common.B(rv) + " " + common.QS(rmsg) + ")")
+	sb.WriteString(" (go (stage " + common.QS(o.stage) + " " + common.QS(o.msg) + ")")
 	if o.stage == "" {
 		sb.WriteString(" (norm1 " + common.QS(o.norm1) + ")")
 		sb.WriteString(" (norm " + o.normDoc + " " + jsonSexpOf(o.normVars) + " " + common.QS(o.normPr) + ")")
@@ -358,7 +357,7 @@ func main() {
 			out.Line(process(e, st))
 			// the variant is a case of its own too
 			if e.Query2 != "" {
-				e2 := &entry{ID: id + "v", SDL: sdl, Schema: ssexp, Universes: unis, Query: e.Query2, Op: e.Op, Vars: e.Vars2, Flags: append([]string{"variant"}, e.Kinds...)}
+				e2 := &entry{ID: id + "v", SDL: sdl, Schema: ssexp, Universes: unis, Query: e.Query2, Op: e.Op, Vars: e.Vars2, Flags: append(append([]string{"variant"}, e.Kinds...), e.Flags...)}
 				if dump != nil {
 					b, _ := json.Marshal(e2)
 					dump.Line(string(b))
@@ -406,6 +405,16 @@ func main() {
 			}
 			trace(&e)
 		}
+	case "adhoc":
+		sdl, err := os.ReadFile(a["sdl"])
+		if err != nil {
+			panic(err)
+		}
+		e := &entry{ID: "adhoc", SDL: string(sdl), Query: a["q"], Op: a["op"]}
+		if v, ok := a["v"]; ok {
+			e.Vars = &v
+		}
+		trace(e)
 	default:
 		fmt.Fprintln(os.Stderr, "unknown command")
 		os.Exit(2)
